@@ -453,6 +453,33 @@ class RangeStub(metaclass=_RangeMeta):
     """Bound to the module global ``range`` of the module under test."""
 
 
+class _IntMeta(type):
+    def __instancecheck__(cls, obj):
+        return builtins.isinstance(obj, builtins.int)
+
+    def __call__(cls, *a, **k):
+        if len(a) == 1 and not k:
+            x = a[0]
+            if type(x) is SymRatio:
+                return x.__trunc__()           # int(a / b): exact truncation of the exact quotient
+            if type(x) in (SymInt, SymBV):
+                return x
+        return builtins.int(*a, **k)
+
+
+class IntStub(int, metaclass=_IntMeta):
+    """Bound to the module global ``int`` of the module under test: ``int(x / y)`` stays symbolic (and exact: a detour
+    through floating point shows up in the boundary-biased concrete replay, not here)."""
+
+
+def _norm_cls(cls):
+    if cls is IntStub:
+        return int
+    if type(cls) is tuple:
+        return tuple(int if c is IntStub else c for c in cls)
+    return cls
+
+
 # ---- symbolic name parts (C18) --------------------------------------------------------------------
 ALPHA = ["a", "b", "ab", "0", 0, 300]      # 300: an integer CPython does not cache (equal but distinct objects)
 _STRS = sorted(set(str(x) for x in ALPHA))
@@ -520,6 +547,7 @@ class SymPart:
 
 
 def sym_isinstance(obj, cls):
+    cls = _norm_cls(cls)
     t = type(obj)
     if t is SymInt or t is SymBV:
         if cls is int or (type(cls) is tuple and int in cls):
@@ -537,9 +565,9 @@ def sym_isinstance(obj, cls):
 
 
 @contextlib.contextmanager
-def patched(modules, names=("isinstance", "range")):
+def patched(modules, names=("isinstance", "range", "int")):
     """Rebind module globals of the modules under test (no source edits); restored on exit."""
-    stub = {"isinstance": sym_isinstance, "range": RangeStub}
+    stub = {"isinstance": sym_isinstance, "range": RangeStub, "int": IntStub}
     saved = []
     for m in modules:
         for n in names:
@@ -798,7 +826,7 @@ class Engine:
         return _plain(v)
 
     # ---- exploration ----------------------------------------------------------------------------------
-    def explore(self, fn, modules=(), max_paths=2_000_000, stubs=("isinstance", "range")):
+    def explore(self, fn, modules=(), max_paths=2_000_000, stubs=("isinstance", "range", "int")):
         """Enumerate all feasible paths of fn(E).  ``modules`` get their globals rebound while a
         symbolic path runs and are untouched while the concrete replay runs."""
         global _engine
